@@ -19,3 +19,8 @@ pub open spec fn vt_field(method: Seq<char>) -> Seq<char> { gi(method) }
 pub struct TastIdent(pub String);
 #[verifier::external_body] pub fn str_to_string(s: &str) -> (r: String) ensures r@ == s@ { unimplemented!() }
 #[verifier::external_body] pub fn dyn_struct_go_name(trait_name: &str) -> (r: String) { unimplemented!() }
+// `format!("_{}", i)`: THE name of the i-th positional field (tuple components, enum variant payloads)
+pub uninterp spec fn pos_field(i: int) -> Seq<char>;
+#[verifier::external_body] pub fn pos_field_name(i: usize) -> (r: String) ensures r@ == pos_field(i as int) { unimplemented!() }
+#[verifier::external_body] pub fn go_type_name_for(ty: &Ty) -> (r: String) { unimplemented!() }
+#[verifier::external_body] pub fn vpanic() requires false { unimplemented!() }          // panic!(..): reaching it is an obligation
